@@ -41,7 +41,12 @@ def obligations(tier):
                               weight=10, budget_s=300, max_paths=20000, selfcheck=False))
         obs.append(Ob(f"standalone/{spec_name((kind, name, kw))}", dict(spec=[kind, name, kw], n0=n0, grow=grow, host="indicator", tail=tail), CFG, weight=10, budget_s=900, max_paths=20000, selfcheck=False))
     for trio in ([("ind", "EMA", dict(period=3)), ("ind", "RSI", dict(period=3)), ("ind", "BBANDS", dict(period=3))],
-                 [("ind", "MACD", dict(fast_period=2, slow_period=3, signal_period=2)), ("ind", "STOCH", dict(period=3, slow_period=2, smoothing_k=2)), ("amorph", "rising", dict(indicator="close", length=2))]):
+                 [("ind", "MACD", dict(fast_period=2, slow_period=3, signal_period=2)), ("ind", "STOCH", dict(period=3, slow_period=2, smoothing_k=2)), ("amorph", "rising", dict(indicator="close", length=2))],
+                 # members chained on another member's output, also on a field of a dict-valued reading (dotted input names)
+                 [("ind", "MACD", dict(fast_period=2, slow_period=3, signal_period=2)), ("ind", "STDEV", dict(period=3, input_value="MACD_2_3_2.MACD")), ("ind", "BBANDS", dict(period=3, input_value="MACD_2_3_2.signal")),
+                  ("ind", "TSI", dict(period=2, smooth_period=2, input_value="MACD_2_3_2.histogram"))],
+                 [("ind", "EMA", dict(period=3)), ("ind", "STDEV", dict(period=3, input_value="EMA_3")), ("ind", "STOCH", dict(period=3, slow_period=2, smoothing_k=2, input_value="EMA_3")),
+                  ("ind", "SMA", dict(period=3, input_value="EMA_3")), ("ind", "ROC", dict(period=2, input_value="EMA_3"))]):
         obs.append(Ob("hexital/" + "+".join(s[1] for s in trio), dict(trio=[list(s) for s in trio], n0=14, grow=grow, host="hexital"), CFG, weight=30, budget_s=900, max_paths=20000, selfcheck=False))
     return obs
 
